@@ -376,7 +376,7 @@ func raceChildMain(args []string) int {
 		e.OnCommit = func(h int64) {
 			prevOnCommit(h)
 			poolMu.Lock()
-			for _, tx := range e.Blocks[h-1].B.Txs {
+			for _, tx := range e.at(h).B.Txs {
 				pool = append(pool, append([]byte(nil), tx...))
 			}
 			poolMu.Unlock()
